@@ -2,7 +2,7 @@
 // public queue.PriorityQueue wrapper and writes one "op => observation" line per call, with a
 // white-box dump of the heap array (slot 0 included) and its capacity.
 //
-//	heap -mode gen -tier quick|thorough -out ops.txt     (seed from VERIF_SEED)
+//	heap -mode gen -tier quick|thorough [-deep] -out ops.txt     (seed from VERIF_SEED)
 //	heap -mode run -ops ops.txt -out trace.txt -stats stats.json
 package main
 
@@ -51,8 +51,112 @@ func cmpOf(name string) func(a, b int) int {
 	panic("cmp " + name)
 }
 
-func gen(tier string, out *vlib.Out) {
+// Capacities far above the small ones of the random cases. The property is stated for EVERY capacity
+// ("full exactly when it holds capacity elements", "Cap() is the value given to the constructor"), while
+// code that treats large capacities differently (allocation caps, thresholds, narrow index arithmetic)
+// only shows beyond its threshold: the capacity domain has to span several orders of magnitude, and a
+// bounded queue has to be filled all the way to such a capacity.
+
+// boundaryCap draws a capacity from [lo, hi]: mostly powers of two and their neighbours (where
+// thresholds and growth steps of allocators live), otherwise anywhere in the range.
+func boundaryCap(r *vlib.Rng, lo, hi int) int {
+	var fam []int
+	for k := 1; k < 62; k++ {
+		for _, d := range []int{-1, 0, 1} {
+			if c := 1<<k + d; c >= lo && c <= hi {
+				fam = append(fam, c)
+			}
+		}
+	}
+	if len(fam) > 0 && r.Chance(60) {
+		return vlib.Pick(r, fam)
+	}
+	return r.Range(lo, hi)
+}
+
+// capProbe: a queue of a (possibly huge) capacity is created and touched only lightly: constructor
+// observations (Cap, IsBoundless, white-box slice capacity), a handful of elements in and out.
+func capProbe(out *vlib.Out, r *vlib.Rng, kind, cmp string, capacity int) {
+	out.Line("new %s %s %d", kind, cmp, capacity)
+	for _, l := range []string{"cap", "boundless", "len", "peek", "deq"} {
+		out.Line("%s", l)
+	}
+	n := r.Range(2, 9)
+	for i := 0; i < n; i++ {
+		out.Line("enq %d", r.Range(-4, 4))
+	}
+	for _, l := range []string{"len", "cap", "boundless", "peek"} {
+		out.Line("%s", l)
+	}
+	for i := 0; i < n+1; i++ {
+		out.Line("deq")
+	}
+	out.Line("enq %d", r.Range(-4, 4))
+	out.Line("len")
+}
+
+// deepFill: a bounded queue is filled to its capacity and beyond (every Enqueue up to the capacity
+// must succeed, the ones after it must fail and change nothing), a few slots are freed and taken
+// again (full once more exactly at the capacity), then `drain` elements are taken out (<0: all of
+// them and two more).
+func deepFill(out *vlib.Out, r *vlib.Rng, kind, cmp string, capacity, span, drain int) {
+	out.Line("new %s %s %d", kind, cmp, capacity)
+	out.Line("cap")
+	every := r.Range(300, 700)
+	for i := 0; i < capacity+2; i++ {
+		out.Line("enq %d", r.Range(-span, span))
+		if i%every == every-1 {
+			out.Line("%s", vlib.Pick(r, []string{"len", "peek", "len", "cap"}))
+		}
+	}
+	out.Line("len")
+	k := r.Range(1, 4)
+	for i := 0; i < k; i++ {
+		out.Line("deq")
+	}
+	for i := 0; i < k+1; i++ {
+		out.Line("enq %d", r.Range(-span, span))
+	}
+	out.Line("len")
+	if drain < 0 {
+		drain = capacity + 2
+	}
+	for i := 0; i < drain; i++ {
+		out.Line("deq")
+		if i%every == every-1 {
+			out.Line("%s", vlib.Pick(r, []string{"len", "peek"}))
+		}
+	}
+	out.Line("enq %d", r.Range(-span, span))
+	out.Line("peek")
+}
+
+// genDeep is the search family used when the white-box correspondence broke but every call of the
+// ordinary run was acceptable to the specification (see checklib/props/C05.py): much larger queues than the
+// ordinary run can afford to replay on the list-based model, judged by the specification only.
+func genDeep(out *vlib.Out, r *vlib.Rng) {
+	// every element of a deep heap is taken out again: unbounded (growth and every shrink) and bounded
+	out.Line("new pq nat 0")
+	for i := 0; i < 9000; i++ {
+		out.Line("enq %d", r.Range(-100000, 100000))
+	}
+	for i := 0; i < 9002; i++ {
+		out.Line("deq")
+	}
+	deepFill(out, r.Fork(), "pq", "nat", r.Range(6000, 7000), 100000, -1)
+	deepFill(out, r.Fork(), "pqpub", "div3", boundaryCap(r, 4000, 8200), 3000, -1)
+	// capacity ladder, filled to the brim
+	for k := 13; k <= 16; k++ {
+		deepFill(out, r.Fork(), "pq", vlib.Pick(r, []string{"nat", "rev", "div3"}), 1<<k+r.Range(1, 1<<(k-4)), 1<<k, 50)
+	}
+}
+
+func gen(tier string, deep bool, out *vlib.Out) {
 	r := vlib.NewRng(vlib.Seed())
+	if deep {
+		genDeep(out, r)
+		return
+	}
 	cases := 700
 	if tier == "thorough" {
 		cases = 5000
@@ -107,6 +211,24 @@ func gen(tier string, out *vlib.Out) {
 	if tier == "thorough" {
 		big("pq", "div3", 0, 2600, 100, r.Fork())
 		big("pq", "rev", 0, 4200, 100000, r.Fork())
+	}
+	// large capacities. Probes: the whole range the constructor can be asked for without exhausting memory
+	// (capacity+1 slots are allocated up front); deep fills: as deep as the tier can afford to replay.
+	probes := 6
+	if tier == "thorough" {
+		probes = 40
+	}
+	bands := []int{101, 1 << 10, 1 << 13, 1 << 16, 1 << 19, 1<<22 + 1} // every run visits every band
+	for i := 0; i < probes; i++ {
+		b := i % (len(bands) - 1)
+		capProbe(out, r.Fork(), vlib.Pick(r, kinds), vlib.Pick(r, cmps), boundaryCap(r, bands[b], bands[b+1]))
+	}
+	deepFill(out, r.Fork(), vlib.Pick(r, kinds), vlib.Pick(r, cmps), boundaryCap(r, 101, 2100), vlib.Pick(r, []int{4, 40, 1000}), 150)
+	deepFill(out, r.Fork(), vlib.Pick(r, kinds), vlib.Pick(r, []string{"nat", "div3", "rev"}), r.Range(4600, 5400), vlib.Pick(r, []int{40, 1000, 100000}), 60)
+	if tier == "thorough" {
+		deepFill(out, r.Fork(), "pq", "nat", boundaryCap(r, 2000, 4200), 500, -1)
+		deepFill(out, r.Fork(), "pqpub", "div3", r.Range(8000, 9000), 1000, -1)
+		deepFill(out, r.Fork(), "pq", "rev", boundaryCap(r, 16000, 17000), 1<<20, 200)
 	}
 	for c := 0; c < cases; c++ {
 		kind := vlib.Pick(r, kinds)
@@ -193,18 +315,22 @@ func gen(tier string, out *vlib.Out) {
 }
 
 type stats struct {
-	Ops      map[string]int `json:"ops"`
-	Results  map[string]int `json:"results"`
-	Kinds    map[string]int `json:"kinds"`
-	Cmps     map[string]int `json:"comparators"`
-	MaxLen   int            `json:"max_len"`
-	MaxCap   int            `json:"max_slice_cap"`
-	Shrinks  int            `json:"shrinks"`
-	Growths  int            `json:"growths"`
-	TieDeqs  int            `json:"dequeues_with_tied_minimum"`
-	Cases    int            `json:"cases"`
-	Lines    int            `json:"lines"`
-	Distinct int            `json:"distinct_state_op_pairs"`
+	Ops           map[string]int `json:"ops"`
+	Results       map[string]int `json:"results"`
+	Kinds         map[string]int `json:"kinds"`
+	Cmps          map[string]int `json:"comparators"`
+	MaxLen        int            `json:"max_len"`
+	MaxCap        int            `json:"max_slice_cap"`
+	Caps          map[string]int `json:"capacity_magnitudes"`
+	MaxCapacity   int            `json:"max_capacity"`
+	MaxBoundedLen int            `json:"max_len_of_a_bounded_queue"`
+	FullAbove100  int            `json:"err_cap_results_with_capacity_above_100"`
+	Shrinks       int            `json:"shrinks"`
+	Growths       int            `json:"growths"`
+	TieDeqs       int            `json:"dequeues_with_tied_minimum"`
+	Cases         int            `json:"cases"`
+	Lines         int            `json:"lines"`
+	Distinct      int            `json:"distinct_state_op_pairs"`
 }
 
 // pq is the common surface of the internal queue and the public wrapper
@@ -270,6 +396,18 @@ func qerr(err error) string {
 	return "err:other"
 }
 
+// capBucket: "<=0", "1-9", "10-99", "100-999", ...
+func capBucket(c int) string {
+	if c <= 0 {
+		return "<=0"
+	}
+	lo := 1
+	for lo*10 <= c {
+		lo *= 10
+	}
+	return fmt.Sprintf("%d-%d", lo, lo*10-1)
+}
+
 func okv(v int, err error) string {
 	if err != nil {
 		return qerr(err)
@@ -280,6 +418,8 @@ func okv(v int, err error) string {
 func run(ops []string, out *vlib.Out, st *stats) {
 	var p *pq
 	var cmp func(a, b int) int
+	curCap := 0
+	last := ""
 	seen := map[string]struct{}{}
 	for _, line := range ops {
 		w := strings.Fields(line)
@@ -289,8 +429,13 @@ func run(ops []string, out *vlib.Out, st *stats) {
 			st.Cases++
 			st.Kinds[w[1]]++
 			st.Cmps[w[2]]++
+			curCap, _ = strconv.Atoi(w[3])
+			st.Caps[capBucket(curCap)]++
+			if curCap > st.MaxCapacity {
+				st.MaxCapacity = curCap
+			}
 			perr := vlib.Catch(func() {
-				capacity, _ := strconv.Atoi(w[3])
+				capacity := curCap
 				cmp = cmpOf(w[2])
 				p = &pq{}
 				if w[1] == "pqpub" {
@@ -309,14 +454,15 @@ func run(ops []string, out *vlib.Out, st *stats) {
 			if p.in != nil {
 				capacity = strconv.Itoa(p.in.Cap())
 			}
-			out.Line("%s => ok capacity=%s %s", line, capacity, state(p))
+			last = state(p)
+			out.Line("%s => ok capacity=%s %s", line, capacity, last)
 			continue
 		}
 		if p == nil {
 			out.Line("%s => no-container", line)
 			continue
 		}
-		before := state(p)
+		before := last // nothing but the ops below touches the queue
 		_, capBefore, _ := wb(p)
 		var res string
 		perr := vlib.Catch(func() {
@@ -356,6 +502,7 @@ func run(ops []string, out *vlib.Out, st *stats) {
 			res = perr
 		}
 		after := state(p)
+		last = after
 		_, c, _ := wb(p)
 		if c < capBefore {
 			st.Shrinks++
@@ -364,6 +511,12 @@ func run(ops []string, out *vlib.Out, st *stats) {
 		}
 		if p.Len() > st.MaxLen {
 			st.MaxLen = p.Len()
+		}
+		if curCap > 0 && p.Len() > st.MaxBoundedLen {
+			st.MaxBoundedLen = p.Len()
+		}
+		if curCap > 100 && res == "err:cap" {
+			st.FullAbove100++
 		}
 		if c > st.MaxCap {
 			st.MaxCap = c
@@ -384,6 +537,7 @@ func run(ops []string, out *vlib.Out, st *stats) {
 func main() {
 	mode := flag.String("mode", "gen", "gen|run")
 	tier := flag.String("tier", "quick", "quick|thorough")
+	deep := flag.Bool("deep", false, "gen: only the deep search family (huge queues, for the specification-only search)")
 	opsF := flag.String("ops", "", "ops file (run mode)")
 	outF := flag.String("out", "", "output file")
 	statsF := flag.String("stats", "", "stats json (run mode)")
@@ -392,9 +546,9 @@ func main() {
 	defer out.Close()
 	switch *mode {
 	case "gen":
-		gen(*tier, out)
+		gen(*tier, *deep, out)
 	case "run":
-		st := &stats{Ops: map[string]int{}, Results: map[string]int{}, Kinds: map[string]int{}, Cmps: map[string]int{}}
+		st := &stats{Ops: map[string]int{}, Results: map[string]int{}, Kinds: map[string]int{}, Cmps: map[string]int{}, Caps: map[string]int{}}
 		run(vlib.ReadLines(*opsF), out, st)
 		if *statsF != "" {
 			b, _ := json.MarshalIndent(st, "", " ")
